@@ -140,3 +140,52 @@ func VerifC03OwnKey() {
 	rt.Assert(member.AddRawRecord(rec) == nil, "member-accepts-what-the-network-accepts")
 	rt.Assert(member.Head().Id == node.Head().Id, "member-and-network-agree-on-the-head")
 }
+
+// VerifC05Coverage (C05): a key rotation - stand-alone or inside a removal - whose account keys are an arbitrary
+// list over the identities (repetitions, omissions, strangers) is accepted by a validating list only when it
+// names every remaining permission holder exactly once; so nobody who keeps a permission is left without the key.
+func VerifC05Coverage() {
+	vC03Install()
+	full := &vC03Verifier{validate: true, acceptorOk: true}
+	root := vC03Root("own")
+	l, _, err := vC03List([]*consensusproto.RawRecordWithId{root}, full, "obs")
+	rt.Assert(err == nil, "build")
+	add := func(id string) {
+		rec := vC03Record(l.Head().Id, "own", &aclrecordproto.AclContentValue{Value: &aclrecordproto.AclContentValue_AccountsAdd{AccountsAdd: &aclrecordproto.AclAccountsAdd{
+			Additions: []*aclrecordproto.AclAccountAdd{{Identity: []byte(id), Permissions: aclrecordproto.AclUserPermissions_Writer, EncryptedReadKey: []byte("erk")}}}}})
+		rt.Assert(l.AddRawRecord(rec) == nil, "setup-add")
+	}
+	add("a1")
+	if rt.Bool() {
+		add("a2")
+	}
+	removeA1 := rt.Bool()
+	holders := map[string]int{}
+	for _, id := range []string{"own", "a1", "a2"} {
+		if as, ok := l.aclState.accountStates[id]; ok && !as.Permissions.NoPermissions() && !(removeA1 && id == "a1") {
+			holders[id] = 1
+		}
+	}
+	n := rt.Choose(4) // number of key entries
+	ch := &aclrecordproto.AclReadKeyChange{MetadataPubKey: []byte("mk"), EncryptedMetadataPrivKey: []byte("emk"), EncryptedOldReadKey: []byte("eok")}
+	named := map[string]int{}
+	for i := 0; i < n; i++ {
+		id := []string{"own", "a1", "a2", "zz"}[rt.Choose(4)]
+		named[id]++
+		ch.AccountKeys = append(ch.AccountKeys, &aclrecordproto.AclEncryptedReadKey{Identity: []byte(id), EncryptedReadKey: []byte("E(" + id + ")k")})
+	}
+	var cv *aclrecordproto.AclContentValue
+	if removeA1 {
+		cv = &aclrecordproto.AclContentValue{Value: &aclrecordproto.AclContentValue_AccountRemove{AccountRemove: &aclrecordproto.AclAccountRemove{Identities: [][]byte{[]byte("a1")}, ReadKeyChange: ch}}}
+	} else {
+		cv = &aclrecordproto.AclContentValue{Value: &aclrecordproto.AclContentValue_ReadKeyChange{ReadKeyChange: ch}}
+	}
+	if l.AddRawRecord(vC03Record(l.Head().Id, "own", cv)) != nil {
+		rt.Reach("refused")
+		return
+	}
+	rt.Reach("accepted")
+	for _, id := range []string{"own", "a1", "a2", "zz"} {
+		rt.Assert(named[id] == holders[id], "accepted-rotation-names-every-remaining-holder-exactly-once")
+	}
+}
